@@ -127,6 +127,16 @@ def prepare_goto(info, timeout=300):
     steps = [
         ["goto-cc", sym, KANI_LIB_C, "-o", out],
         ["goto-cc", out, "--function", info["mangled"], "-o", out],
+    ]
+    for s in steps:
+        rc, so, _ = _run(s, timeout, 16)
+        if rc != 0:
+            raise RuntimeError(f"{s[0]} failed ({rc}): {(so or '')[-400:]}")
+    if info.get("replace_calls"):
+        replace_calls(out, info, timeout)
+    if info.get("fp_restrict"):
+        restrict_function_pointers(out, info, timeout)
+    steps = [
         ["goto-instrument", "--add-library", "--no-malloc-may-fail", out, out],
         ["goto-instrument", "--generate-function-body-options", "assert-false-assume-false",
          "--generate-function-body", ".*", "--drop-unused-functions", out, out],
@@ -137,6 +147,78 @@ def prepare_goto(info, timeout=300):
         if rc != 0:
             raise RuntimeError(f"{s[0]} failed ({rc}): {(so or '')[-400:]}")
     return out
+
+
+def _list_functions(out, timeout=300):
+    rc, so, _ = _run(["goto-instrument", "--list-goto-functions", out], timeout, 16)
+    if rc != 0 or not so:
+        raise RuntimeError("goto-instrument --list-goto-functions failed")
+    fns = []      # (pretty, mangled)
+    for line in so.split("\n"):
+        m = re.match(r"^(.*) /\* (\S+?)(, body not available)? \*/\s*$", line)
+        if m and not m.group(3):
+            fns.append((m.group(1), m.group(2)))
+    return fns
+
+
+def replace_calls(out, info, timeout=300):
+    """goto-instrument --replace-calls F:G: every DIRECT call of F becomes a call of G (same type required).  Used to
+    cut a recursion at its first level: the harness enters the real function through a function pointer (an indirect
+    call, which is not rewritten and is then restricted to F), while the function's own recursive calls are direct and
+    go to a recorder G.  The code under test is the real body of F; G stands for the nested call's specification.
+    spec: list of [regex of F's pretty name, regex of G's pretty name]; both must match exactly one function."""
+    fns = _list_functions(out, timeout)
+    args, applied = [], []
+    for frm, to in info["replace_calls"]:
+        f = [mg for (pr, mg) in fns if re.search(frm, pr)]
+        g = [mg for (pr, mg) in fns if re.search(to, pr)]
+        if len(f) != 1 or len(g) != 1:
+            raise RuntimeError(f"replace-calls {frm} -> {to}: expected exactly one function each, found {len(f)} / {len(g)}")
+        args += ["--replace-calls", f"{f[0]}:{g[0]}"]
+        applied.append({"direct_calls_of": frm, "go_to": to})
+    rc, so, _ = _run(["goto-instrument"] + args + [out, out], timeout, 16)
+    if rc != 0:
+        raise RuntimeError(f"goto-instrument --replace-calls failed ({rc}): {(so or '')[-600:]}")
+    info["replace_calls_applied"] = applied
+
+
+def restrict_function_pointers(out, info, timeout=300):
+    """Per-call-site restriction of indirect calls (goto-instrument --restrict-function-pointer), applied before CBMC's
+    own function-pointer removal.  CBMC's removal makes every address-taken function of a compatible signature a
+    candidate (for `fn(&mut World)` that includes `core::fmt` and drop-glue functions); on pointers read back from
+    the heap all candidates are then explored.  The restriction replaces the call by a case split over the listed
+    targets **followed by `ASSERT false`**: a pointer value outside the list is reported as a failed property, so the
+    restriction is checked, not assumed.
+    spec: list of [call-site function (regex on the pretty name), [target regexes...]] or
+          [call-site, n, [targets]] for the n-th indirect call of that function (default 1).
+    Call sites that do not exist in this harness's program are skipped (the function was not reachable)."""
+    rc, so, _ = _run(["goto-instrument", "--list-goto-functions", out], timeout, 16)
+    if rc != 0 or not so:
+        raise RuntimeError("goto-instrument --list-goto-functions failed")
+    fns = []      # (pretty, mangled)
+    for line in so.split("\n"):
+        m = re.match(r"^(.*) /\* (\S+?)(, body not available)? \*/\s*$", line)
+        if m and not m.group(3):
+            fns.append((m.group(1), m.group(2)))
+    args, applied = [], []
+    for spec in info["fp_restrict"]:
+        site, n, targets = (spec[0], 1, spec[1]) if len(spec) == 2 else spec
+        sites = [mg for (pr, mg) in fns if re.search(site, pr)]
+        if not sites:
+            continue
+        tg = []
+        for t in targets:
+            tg += [mg for (pr, mg) in fns if re.search(t, pr) and mg not in tg]
+        if not tg:
+            raise RuntimeError(f"function-pointer restriction for {site}: no target function found ({targets})")
+        for sm in sites:
+            args += ["--restrict-function-pointer", f"{sm}.function_pointer_call.{n}/" + ",".join(tg)]
+            applied.append({"call_site": site, "n": n, "targets": len(tg)})
+    if args:
+        rc, so, _ = _run(["goto-instrument"] + args + [out, out], timeout, 16)
+        if rc != 0:
+            raise RuntimeError(f"goto-instrument --restrict-function-pointer failed ({rc}): {(so or '')[-600:]}")
+    info["fp_restrict_applied"] = applied
 
 
 PROP_RE = re.compile(r"^(?P<fn>.*)\.(?P<cls>[a-zA-Z_\-]+)\.(?P<n>\d+)$")
@@ -227,6 +309,20 @@ def loop_unwindset(goto, per_function):
         raise RuntimeError("cbmc --show-loops failed")
     sets = []
     cur = None
+    # recursion bounds: key "rec:<regex on the pretty function name>" -> `<mangled function>:<bound>` (CBMC uses the function
+    # identifier as the loop id of a recursion; the recursion unwinding assertion stays on)
+    rec = {k[4:]: b for k, b in per_function.items() if k.startswith("rec:")}
+    per_function = {k: b for k, b in per_function.items() if not k.startswith("rec:")}
+    if rec:
+        rc2, so2, _ = _run(["goto-instrument", "--list-goto-functions", goto], 120, 8)
+        if rc2 != 0 or not so2:
+            raise RuntimeError("goto-instrument --list-goto-functions failed")
+        for line in so2.split("\n"):
+            m = re.match(r"^(.*) /\* (\S+?)(, body not available)? \*/\s*$", line)
+            if m and not m.group(3):
+                for rx, bound in rec.items():
+                    if re.search(rx, m.group(1)):
+                        sets.append(f"{m.group(2)}:{bound}")
     for line in so.split("\n"):
         m = re.match(r"^Loop (\S+):\s*$", line)
         if m:
